@@ -193,7 +193,7 @@ DEFAULT_PROFILE = dict(
     dip_spellings=True, result_dip=False, keyword_params=True, nested_structs=True,
     max_params=5, cb_struct_args=True, opt_slices=True, char=False, ordering=True,
     mut_self=True, opt_mut_oref=True, namespaces=False, byte_slices=True, renames=False,
-    strs_utf8=False, result_prim_err=True, opt_owned=False, write_prob=0.18, cb_opt=True, cb_slices=True, cb_strs=True, cb_aggr_ret=True, traits=False, trait_prob=0.5, held_callbacks=False, self_spelling=True, opt_strs=True, cb_orefs=False,
+    strs_utf8=False, result_prim_err=True, opt_owned=False, write_prob=0.18, cb_opt=True, cb_slices=True, cb_strs=True, cb_aggr_ret=True, traits=False, trait_prob=0.5, held_callbacks=False, self_spelling=True, opt_strs=True, cb_orefs=False, opt_slice_fields=False,
 )
 
 
@@ -291,6 +291,10 @@ class Gen:
             return ("opt", inner, "dip")
         if c < 0.86 and self.p["struct_slices"] and lifetimes is not None:
             lifetimes.add("a")
+            if self.p["opt_slice_fields"] and self.chance(0.4):
+                # an optional borrowed slice / string as a field (tool-level checks only: the drivers have no model for it)
+                inner = self.pick([("slice", self.pick(SLICE_PRIMS[:-1]), False, "a", "dip"), ("str", "ustr", "a", "dip")] + ([("str", "u16", "a", "dip")] if self.p["utf16"] else []))
+                return ("opt", inner, "dip")
             if self.chance(0.5):
                 return ("slice", self.pick(SLICE_PRIMS[:-1]), False, "a", "dip")
             encs = ["ustr"] + (["u16"] if self.p["utf16"] else []) + (["utf8"] if self.p["utf8"] else [])
@@ -369,6 +373,8 @@ class Gen:
             t = self.gen_trait()
             self.traits.append(t)
             return t
+        if p.get("opt_strs_bias") and p["strs"] and self.chance(0.25):
+            return ("opt", ("strs", self.pick(["ustr", "u16"])), "std")      # optional arrays of strings (present-but-empty must stay present)
         if p.get("utf8_bias") and p["utf8"] and self.chance(0.35):
             return ("str", "utf8", None, "std")       # several validated strings per method (each must be checked on its own)
         c = self.r.random()
